@@ -14,6 +14,7 @@ state machine:
     specification uses (InvTrack).  Seeded design bugs must each violate an invariant; the stop rule as coded must violate
     InvFresh (the published gap is the gap of the published coefficients) and the corrected rule must satisfy it.
 (B) specs/Gen_CdStep.tla emits the same tiny instances as cases plus longer runs (n = 4, p <= 3, budgets up to 40).
+    A third of the cases is also run through MultiTaskElasticNet on one target column (kind bcd1).
 (C) harness x13 fits them with the step hook on (docs/reports/X13-hook.diff: cd.start / cd.coord / cd.icpt / cd.sweep /
     cd.end); specs/Trace_CdStep.tla replays every recorded event as an action of the fixed-point layer.
 On a tree without the hook (detected from the sources) the cases carry hook = 0: the model runs on its own and only the
@@ -38,7 +39,7 @@ TIER = {
     "quick": dict(mc=dict(MaxN=3, MaxP=2, MaxIt=2, Thin=5), bug=dict(MaxN=3, MaxP=2, MaxIt=2, Thin=9),
                   gen=dict(MaxN=3, MaxP=2, MaxIt=2, TinyThin=5, RunThin=300)),
     "thorough": dict(mc=dict(MaxN=3, MaxP=2, MaxIt=3, Thin=1), bug=dict(MaxN=3, MaxP=2, MaxIt=2, Thin=2),
-                     gen=dict(MaxN=3, MaxP=2, MaxIt=3, TinyThin=1, RunThin=4)),
+                     gen=dict(MaxN=3, MaxP=2, MaxIt=3, TinyThin=1, RunThin=16)),
 }
 GAPCAP = 12
 
@@ -125,10 +126,11 @@ def features(t):
         tags.add("precheck_not_fired")
     if any(e["ev"] == "cd.coord" and e["skip"] == 1 for e in t["ev"]):
         tags.add("skipped_column_event")
+    tags.add("block_solver_one_task" if t["kind"] == "bcd1" else "single_task_solver")
     return tags
 
 
-NEED = ["penalty_0", "pure_ridge", "pure_lasso", "mixed_l1_l2", "zero_column", "equal_columns", "nearly_collinear_columns",
+NEED = ["block_solver_one_task", "single_task_solver", "penalty_0", "pure_ridge", "pure_lasso", "mixed_l1_l2", "zero_column", "equal_columns", "nearly_collinear_columns",
         "intercept", "no_intercept", "three_or_more_sweeps", "budget_used_up", "converged_before_budget",
         "coefficient_thresholded_to_zero"]
 NEED_HOOK = ["gap_computed_run_continues", "precheck_not_fired", "skipped_column_event"]
@@ -258,7 +260,7 @@ def random_cases(ctx, count):
         y = [r.randint(-4, 6) for _ in range(n)]
         pen = r.choice([[0, 1], [1, 8], [1, 4], [1, 2], [1, 1], [2, 1]])
         l1r = [1, 2] if pen[0] == 0 else r.choice([[0, 1], [1, 4], [1, 2], [3, 4], [1, 1]])
-        out.append({"kind": "cd", "inp": {"x": x, "y": y, "pen": pen, "l1r": l1r, "tol": [1, r.choice([10, 100, 1000, 10000])],
+        out.append({"kind": r.choice(["cd", "cd", "bcd1"]), "inp": {"x": x, "y": y, "pen": pen, "l1r": l1r, "tol": [1, r.choice([10, 100, 1000, 10000])],
                                           "icpt": r.random() < 0.5, "maxit": r.choice([1, 2, 3, 5, 12, 60]), "fam": "random"}})
     return out
 
@@ -339,6 +341,7 @@ def run(ctx):
             nontriv.add(json.dumps(tr["inp"], sort_keys=True))
     ctx.nontrivial = len(nontriv)
     ctx.extra.update({
+        "by_kind": {k: sum(1 for tr in traces if tr["kind"] == k) for k in sorted({tr["kind"] for tr in traces})},
         "by_family": {k: sum(1 for tr in traces if tr["inp"]["fam"] == k) for k in sorted({tr["inp"]["fam"] for tr in traces})},
         "step_events_recorded": nstep,
         "step_events_replayed": sum(1 for tr in traces if tr["id"] in ok for e in tr["ev"] if e["ev"].startswith("cd.")) if hook else 0,
@@ -381,7 +384,9 @@ def run(ctx):
         "admits both branch values",
         "the exact layer of the design model evaluates objective / gap only while the state's denominators stay below ObjCap / GapCap "
         "(32-bit integers of TLC); runs whose pre-check fires beyond the cap are abandoned without verdict",
-        "single-task solver only; the multi-task block solver is instrumented (bcd.* events) but not modelled",
+        "the multi-task block solver is replayed on ONE target column only (kind bcd1: it must run through the single-task state "
+        "machine); blocks of several tasks (row norms, block soft threshold with a square root) are instrumented (bcd.* events) "
+        "but not modelled",
         "termination is bounded by the sweep budget; a harness timeout is a tool error",
     ]
     return vlib.finish(ctx)
